@@ -154,7 +154,8 @@ def make(rng, entry, charset='E', nfaults=None, multi=None, alphabet=V.PLAIN, fa
         # interchanges from different senders in one file
         isas = [s_ for s_ in doc if s_['id'] == 'ISA' and len(s_['vals']) >= 8]
         if len(isas) > 1:
-            isas[-1]['vals'][5] = 'OTHERSENDER    '
+            # (sometimes wider than the 15 characters of ISA06: only the first ISA of a file has a fixed length)
+            isas[-1]['vals'][5] = rng.choice(['OTHERSENDER    ', 'OTHERSENDER    ', 'OTHERSENDER0123456'])
             tfaults.append((-1, 'several_senders'))
     if trailer_faults and rng.random() < 0.06:
         # a set of another transaction type inside the group (its ST01 is not what the group's map expects)
